@@ -3,6 +3,7 @@
 
 import math
 import operator
+import sys
 from numbers import Number
 
 from .op import (
@@ -226,6 +227,9 @@ def sigmoid(x):
 @sub.make
 def safesub(x, y):
     if isinstance(y, Number):
+        if isinstance(y, float):
+            # as in the array kernel: clip -y at the largest finite float
+            y = max(y, -sys.float_info.max)
         return sub(x, y)
 
 
